@@ -149,19 +149,53 @@ type scriptDeadliner struct {
 	status  map[core.Duty]core.DeadlineStatus
 	ch      chan core.Duty
 	barrier *sync.WaitGroup // when set: Add blocks until every racing call has arrived
+	// status 'T': Add answers Scheduled, but the duty expires and is trimmed before Add returns (the
+	// deadline fires between the deadliner's answer and the store)
+	trimIn   map[core.Duty]bool
+	trimDone chan struct{}     // closed when the trim inside Add has been fully processed
+	trimMid  func()            // called after the trim completed inside Add (mid snapshot)
 }
 
 func (d *scriptDeadliner) Add(duty core.Duty) core.DeadlineStatus {
 	d.mu.Lock()
 	st, ok := d.status[duty]
 	b := d.barrier
+	trim := d.trimIn[duty]
+	delete(d.trimIn, duty)
+	var done chan struct{}
+	if trim {
+		done = make(chan struct{})
+		d.trimDone = done
+	}
+	mid := d.trimMid
 	d.mu.Unlock()
 	if !ok {
 		panic(fmt.Sprintf("deadliner: unscripted duty %v", duty))
 	}
+	if trim {
+		go func() {
+			d.ch <- duty
+			d.ch <- core.Duty{} // received only after the previous duty was fully processed
+			close(done)
+		}()
+		select {
+		case <-done:
+			if mid != nil {
+				mid()
+			}
+		case <-time.After(200 * time.Millisecond): // the store holds its lock while asking: the trim runs afterwards
+		}
+	}
 	if b != nil {
 		b.Done()
-		b.Wait()
+		// wait for the other racing call; an implementation that does not ask the deadliner in one of
+		// the calls must not hang the driver: give up after a moment (the calls then simply run on)
+		ok := make(chan struct{})
+		go func() { b.Wait(); close(ok) }()
+		select {
+		case <-ok:
+		case <-time.After(200 * time.Millisecond):
+		}
 	}
 	return st
 }
@@ -170,7 +204,7 @@ func (d *scriptDeadliner) C() <-chan core.Duty { return d.ch }
 
 func statusOf(b byte) core.DeadlineStatus {
 	switch b {
-	case 'S':
+	case 'S', 'T':
 		return core.DeadlineScheduled
 	case 'X':
 		return core.DeadlineExpired
@@ -214,6 +248,7 @@ type episode struct {
 	tmpl  map[string]core.SignedData
 	roots map[[32]byte]string
 
+	mid   *parsigdb.VerifSnapshot // snapshot taken inside Add after a status-T trim completed
 	obsMu sync.Mutex
 	cur   []*callObs
 	curCB []bool
@@ -397,8 +432,17 @@ func (ep *episode) attempt(calls []call) []*callObs {
 	}
 	ep.obsMu.Unlock()
 	ep.dl.mu.Lock()
+	ep.dl.trimDone = nil
+	ep.mid = nil
 	for _, c := range calls {
 		ep.dl.status[c.duty()] = statusOf(c.status)
+		if c.status == 'T' {
+			if ep.dl.trimIn == nil {
+				ep.dl.trimIn = map[core.Duty]bool{}
+			}
+			ep.dl.trimIn[c.duty()] = true
+			ep.dl.trimMid = func() { m := ep.db.VerifSnapshot(); ep.mid = &m }
+		}
 	}
 	if len(calls) > 1 {
 		ep.dl.barrier = &sync.WaitGroup{}
@@ -429,6 +473,15 @@ func (ep *episode) attempt(calls []call) []*callObs {
 		}(i, c)
 	}
 	wg.Wait()
+	ep.dl.mu.Lock()
+	done := ep.dl.trimDone
+	for du := range ep.dl.trimIn {
+		delete(ep.dl.trimIn, du) // the implementation never asked the deadliner
+	}
+	ep.dl.mu.Unlock()
+	if done != nil {
+		<-done
+	}
 	return ep.cur
 }
 
@@ -778,7 +831,21 @@ func (d *driver) doCalls(calls []call, target string) {
 			ep.status[c.duty()] = c.status
 		}
 	}
-	ep.monitors(d.run, calls, obs, pre, post, nil)
+	if len(calls) == 1 && calls[0].status == 'T' {
+		// trim inside Add: monitors see it as `trim; call` when the mid snapshot exists
+		du := calls[0].duty()
+		d.run.Count("call:trim_inside_add")
+		if ep.mid != nil {
+			ep.monitors(d.run, nil, nil, pre, *ep.mid, &du)
+			ep.status[du] = 'S'
+			ep.monitors(d.run, calls, obs, *ep.mid, post, nil)
+		} else {
+			d.run.Count("call:trim_inside_add_deferred")
+		}
+		ep.status[du] = 'X'
+	} else {
+		ep.monitors(d.run, calls, obs, pre, post, nil)
+	}
 	// distribution
 	kind := "call"
 	if len(calls) == 2 {
@@ -1079,6 +1146,13 @@ func (g *gen) randomOps(k int) {
 		case r < 5 && g.duts[di].status == 'S':
 			g.d.execLine(fmt.Sprintf("trim %d:%d", g.duts[di].slot, g.duts[di].typ))
 			g.duts[di].status = 'X' // deadliner contract: a trimmed duty is expired from now on
+		case r < 9 && g.duts[di].status == 'S':
+			// the deadline fires between the deadliner's answer (Scheduled) and the store: the partial is
+			// stored for a duty that is trimmed already; every later partial of the duty is refused (expired)
+			c := g.mkCall(di, g.pickShare(di), false)
+			c.status = 'T'
+			g.emit(c)
+			g.duts[di].status = 'X'
 		case r < 20:
 			s1 := g.pickShare(di)
 			s2 := g.pickShare(di)
